@@ -1301,3 +1301,210 @@ Proof.
   split; auto. split; auto. split; auto.
   apply (proj2 (frontier _ _ Rf)). intros u [Hb|Hb]; congruence.
 Qed.
+
+(** * Non-vacuity: concrete reachable states and traces.
+    ex_cfg : K = 1; ex_cfg2 : K = 2; one method "m"; notifications and calls with params [1], [2], [3]. *)
+Definition feed1 (ms : list jmsg) : list label := [LFeed (FMsg (InMsgs false ms)); LRelRead].
+Definition feedb (ms : list jmsg) : list label := [LFeed (FMsg (InMsgs true ms)); LRelRead].
+
+(* message 0 = a notification, in its handler; message 1 = a call, dequeued, held at the barrier *)
+Definition tr_open : list label :=
+  [LStart; LRelNext] ++ feed1 [ex_note [1%N]] ++ [LRelBarrier; LRelAcquire 0] ++
+  feed1 [ex_call [49%N] [2%N]] ++ [LRelNext; LRelBarrier].
+(* ... the notification handler returns (LGate) and signals the barrier (LRelHandled 0): message 1 is released *)
+Definition tr_closed : list label := tr_open ++ [LGate [1%N] (ORes []); LRelHandled 0].
+(* ... and the call enters its handler *)
+Definition tr_later : list label := tr_closed ++ [LRelAcquire 1].
+(* ... a third message, a call, arrives and runs beside it *)
+Definition tr_two_calls : list label :=
+  tr_later ++ feed1 [ex_call [51%N] [3%N]] ++ [LRelNext; LRelBarrier; LRelNext; LRelAcquire 2].
+(* a batch of two calls, both running; a batch of a notification and a call, both running *)
+Definition tr_batch2 : list label :=
+  [LStart; LRelNext] ++ feedb [ex_call [49%N] [1%N]; ex_call [50%N] [2%N]] ++ [LRelBarrier; LRelAcquire 0; LRelAcquire 1].
+Definition tr_batchn : list label :=
+  [LStart; LRelNext] ++ feedb [ex_note [1%N]; ex_call [50%N] [2%N]] ++ [LRelBarrier; LRelAcquire 0; LRelAcquire 1].
+(* two single calls in two messages *)
+Definition tr_calls : list label :=
+  [LStart; LRelNext] ++ feed1 [ex_call [49%N] [1%N]] ++ [LRelBarrier; LRelAcquire 0] ++
+  feed1 [ex_call [50%N] [2%N]] ++ [LRelNext; LRelBarrier; LRelNext; LRelAcquire 1].
+(* K = 1: a call runs, the notification of message 1 waits for the slot, message 2 is held at the barrier *)
+Definition tr_nwait : list label :=
+  [LStart; LRelNext] ++ feed1 [ex_call [49%N] [1%N]] ++ [LRelBarrier; LRelAcquire 0] ++
+  feed1 [ex_note [2%N]] ++ [LRelNext; LRelBarrier; LRelAcquire 1] ++
+  feed1 [ex_call [51%N] [3%N]] ++ [LRelNext; LRelBarrier].
+(* tr_open with a further message still in the queue *)
+Definition tr_open_queued : list label := tr_open ++ feed1 [ex_call [51%N] [3%N]].
+
+Definition st_view (s : state) :=
+  (map (fun t => (t_unit t, t_st t, is_note t)) (tasks s), map u_st (units s), dp s, nbar s).
+
+Ltac reach_ex := apply reach_st_of; vm_compute; discriminate.
+
+Example inv_nbar_nonvacuous :
+  reach ex_cfg2 (st_of ex_cfg2 tr_open) /\ crash (st_of ex_cfg2 tr_open) = None /\
+  st_view (st_of ex_cfg2 tr_open) =
+    ([(0, TRunning, true); (1, TAtAcquire, false)], [URunning; UAtBarrier], DBarrierWait 1, 1) /\
+  open_notes (st_of ex_cfg2 tr_open) = 1 /\
+  (* after the notification returned the counter is back to 0 and message 1 is released *)
+  st_view (st_of ex_cfg2 tr_closed) =
+    ([(0, TDone None, true); (1, TAtAcquire, false)], [UFinished; URunning], DAtNext, 0) /\
+  (* a notification waiting for a handler slot counts too *)
+  reach ex_cfg (st_of ex_cfg tr_nwait) /\
+  st_view (st_of ex_cfg tr_nwait) =
+    ([(0, TRunning, false); (1, TWaiting, true); (2, TAtAcquire, false)], [URunning; URunning; UAtBarrier], DBarrierWait 2, 1).
+Proof.
+  split; [reach_ex|]. split; [vm_compute; reflexivity|]. split; [vm_compute; reflexivity|].
+  split; [vm_compute; reflexivity|]. split; [vm_compute; reflexivity|]. split; [reach_ex|]. vm_compute; reflexivity.
+Qed.
+
+Example frontier_nonvacuous :
+  reach ex_cfg2 (st_of ex_cfg2 tr_open) /\ bar (st_of ex_cfg2 tr_open) 1 /\ length (units (st_of ex_cfg2 tr_open)) = 2 /\
+  released (st_of ex_cfg2 tr_open) 0 = true /\ released (st_of ex_cfg2 tr_open) 1 = false.
+Proof. split; [reach_ex|]. split; [right; vm_compute; reflexivity|]. vm_compute. auto. Qed.
+
+Example barrier_past_nonvacuous :
+  exists n, reach ex_cfg2 (st_of ex_cfg2 tr_closed) /\ released (st_of ex_cfg2 tr_closed) 1 = true /\
+    nth_error (tasks (st_of ex_cfg2 tr_closed)) 0 = Some n /\ t_unit n < 1 /\ runnable n = true /\ is_note n = true /\
+    t_st n = TDone None.
+Proof. eexists. split; [reach_ex|]. split; [vm_compute; reflexivity|]. split; [vm_compute; reflexivity|]. vm_compute. auto. Qed.
+
+(* the later call is in its handler, the earlier notification is done *)
+Example notification_before_later_nonvacuous :
+  exists r n, reach ex_cfg2 (st_of ex_cfg2 tr_later) /\
+    nth_error (tasks (st_of ex_cfg2 tr_later)) 1 = Some r /\ nth_error (tasks (st_of ex_cfg2 tr_later)) 0 = Some n /\
+    t_unit n < t_unit r /\ runnable n = true /\ is_note n = true /\ t_st r = TRunning /\ t_st n = TDone None.
+Proof.
+  eexists _, _. split; [reach_ex|]. split; [vm_compute; reflexivity|]. split; [vm_compute; reflexivity|]. vm_compute. auto 10.
+Qed.
+
+(* the notification is open, the later call has not even reached the semaphore *)
+Example open_note_blocks_later_nonvacuous :
+  exists n r, reach ex_cfg2 (st_of ex_cfg2 tr_open) /\
+    nth_error (tasks (st_of ex_cfg2 tr_open)) 0 = Some n /\ nth_error (tasks (st_of ex_cfg2 tr_open)) 1 = Some r /\
+    runnable n = true /\ is_note n = true /\ t_st n = TRunning /\ t_unit n < t_unit r /\ t_st r = TAtAcquire.
+Proof.
+  eexists _, _. split; [reach_ex|]. split; [vm_compute; reflexivity|]. split; [vm_compute; reflexivity|]. vm_compute. auto 10.
+Qed.
+
+Example notification_before_later_step_nonvacuous :
+  exists s' os, reach ex_cfg2 (st_of ex_cfg2 tr_closed) /\
+    step (st_of ex_cfg2 tr_closed) (LRelAcquire 1) = Some (s', os) /\ In (OStart [2%N] false) os /\
+    map (fun t => (t_unit t, is_note t, t_st t)) (tasks (st_of ex_cfg2 tr_closed)) =
+      [(0, true, TDone None); (1, false, TAtAcquire)].
+Proof.
+  eexists _, _. split; [reach_ex|]. split; [vm_compute; reflexivity|]. split; [left; reflexivity|]. vm_compute. reflexivity.
+Qed.
+
+Example notification_before_later_trace_nonvacuous :
+  exists s2 oss s1' os, run (init_of ex_cfg2) (tr_closed ++ LRelAcquire 1 :: []) = Some (s2, oss) /\
+    step (st_of ex_cfg2 tr_closed) (LRelAcquire 1) = Some (s1', os) /\ In (OStart [2%N] false) os /\
+    tr_closed = tr_open ++ [LGate [1%N] (ORes [])] ++ LRelHandled 0 :: [].
+Proof.
+  eexists _, _, _, _. split; [vm_compute; reflexivity|]. split; [vm_compute; reflexivity|]. split; [left; reflexivity|].
+  reflexivity.
+Qed.
+
+Example never_entered_while_open_nonvacuous :
+  exists s2 oss n2 tr1 tr2, tr_open = tr1 ++ LRelAcquire 0 :: tr2 /\
+    run (init_of ex_cfg2) (tr1 ++ LRelAcquire 0 :: tr2) = Some (s2, oss) /\
+    nth_error (tasks s2) 0 = Some n2 /\ runnable n2 = true /\ is_note n2 = true /\ t_st n2 = TRunning /\
+    (* the call of the later message exists and was never entered *)
+    map t_st (tasks s2) = [TRunning; TAtAcquire] /\ oss = [[]; []; []; []; []; [OStart [1%N] false]; []; []; []; []].
+Proof.
+  eexists _, _, _, [LStart; LRelNext; _; LRelRead; LRelBarrier], _. split; [reflexivity|].
+  split; [vm_compute; reflexivity|]. split; [reflexivity|]. vm_compute. auto 10.
+Qed.
+
+Example done_note_was_handled_nonvacuous :
+  exists s oss n, run (init_of ex_cfg2) tr_closed = Some (s, oss) /\ nth_error (tasks s) 0 = Some n /\
+    is_note n = true /\ t_st n = TDone None /\ In (LRelHandled 0) tr_closed.
+Proof.
+  eexists _, _, _. split; [vm_compute; reflexivity|]. split; [reflexivity|]. split; [reflexivity|]. split; [reflexivity|].
+  vm_compute. auto 20.
+Qed.
+
+Example note_done_only_by_handled_nonvacuous :
+  exists s' os n n', reach ex_cfg2 (st_of ex_cfg2 (tr_open ++ [LGate [1%N] (ORes [])])) /\
+    step (st_of ex_cfg2 (tr_open ++ [LGate [1%N] (ORes [])])) (LRelHandled 0) = Some (s', os) /\
+    nth_error (tasks (st_of ex_cfg2 (tr_open ++ [LGate [1%N] (ORes [])]))) 0 = Some n /\ nth_error (tasks s') 0 = Some n' /\
+    is_note n = true /\ tdone n = false /\ tdone n' = true.
+Proof.
+  eexists _, _, _, _. split; [reach_ex|]. split; [vm_compute; reflexivity|]. split; [vm_compute; reflexivity|].
+  split; [reflexivity|]. vm_compute. auto.
+Qed.
+
+(** ** 4. requests of one inbound message may run concurrently *)
+Example same_message_concurrent_allowed :
+  (* two calls of one batch, both in their handlers (K = 2) *)
+  (exists s, reach ex_cfg2 s /\ crash s = None /\
+     map (fun t => (t_unit t, is_note t, t_st t)) (tasks s) = [(0, false, TRunning); (0, false, TRunning)] /\
+     SrvC06.executing s = 2) /\
+  (* a notification and a call of one batch, both in their handlers *)
+  (exists s, reach ex_cfg2 s /\ crash s = None /\
+     map (fun t => (t_unit t, is_note t, t_st t)) (tasks s) = [(0, true, TRunning); (0, false, TRunning)] /\
+     SrvC06.executing s = 2 /\ nbar s = 1).
+Proof.
+  split.
+  - exists (st_of ex_cfg2 tr_batch2). split; [reach_ex|]. vm_compute. auto.
+  - exists (st_of ex_cfg2 tr_batchn). split; [reach_ex|]. vm_compute. auto.
+Qed.
+
+(** ** 5. liveness half *)
+Example calls_do_not_block_later_nonvacuous :
+  (* held by a notification in its handler, the later message at the barrier *)
+  (reach ex_cfg2 (st_of ex_cfg2 tr_open) /\ crash (st_of ex_cfg2 tr_open) = None /\
+   quiescent (st_of ex_cfg2 tr_open) = true /\ running (st_of ex_cfg2 tr_open) = true /\
+   bar (st_of ex_cfg2 tr_open) 1 /\ map t_st (tasks (st_of ex_cfg2 tr_open)) = [TRunning; TAtAcquire]) /\
+  (* ... and one more message still queued *)
+  (reach ex_cfg2 (st_of ex_cfg2 tr_open_queued) /\ crash (st_of ex_cfg2 tr_open_queued) = None /\
+   quiescent (st_of ex_cfg2 tr_open_queued) = true /\ running (st_of ex_cfg2 tr_open_queued) = true /\
+   inq (st_of ex_cfg2 tr_open_queued) <> [] /\ dp (st_of ex_cfg2 tr_open_queued) = DBarrierWait 1) /\
+  (* held by a notification that waits for a handler slot (K = 1, the slot is taken by a call) *)
+  (reach ex_cfg (st_of ex_cfg tr_nwait) /\ crash (st_of ex_cfg tr_nwait) = None /\
+   quiescent (st_of ex_cfg tr_nwait) = true /\ running (st_of ex_cfg tr_nwait) = true /\
+   bar (st_of ex_cfg tr_nwait) 2 /\ sem_free (st_of ex_cfg tr_nwait) = 0 /\
+   map (fun t => (is_note t, t_st t)) (tasks (st_of ex_cfg tr_nwait)) = [(false, TRunning); (true, TWaiting); (false, TAtAcquire)]).
+Proof.
+  split; [|split].
+  - split; [reach_ex|]. split; [vm_compute; reflexivity|]. split; [vm_compute; reflexivity|].
+    split; [vm_compute; reflexivity|]. split; [right; vm_compute; reflexivity|]. vm_compute; reflexivity.
+  - split; [reach_ex|]. split; [vm_compute; reflexivity|]. split; [vm_compute; reflexivity|].
+    split; [vm_compute; reflexivity|]. split; [vm_compute; discriminate|]. vm_compute; reflexivity.
+  - split; [reach_ex|]. split; [vm_compute; reflexivity|]. split; [vm_compute; reflexivity|].
+    split; [vm_compute; reflexivity|]. split; [right; vm_compute; reflexivity|]. split; vm_compute; reflexivity.
+Qed.
+
+(* K = 1: the call of message 1 is released and waits for the only slot, which the call of message 0 holds *)
+Example released_waits_only_for_slot_nonvacuous :
+  exists t, reach ex_cfg (st_of ex_cfg tr_calls) /\ crash (st_of ex_cfg tr_calls) = None /\
+    quiescent (st_of ex_cfg tr_calls) = true /\ nth_error (tasks (st_of ex_cfg tr_calls)) 1 = Some t /\
+    released (st_of ex_cfg tr_calls) (t_unit t) = true /\ t_st t = TWaiting /\ sem_free (st_of ex_cfg tr_calls) = 0.
+Proof.
+  eexists. split; [reach_ex|]. split; [vm_compute; reflexivity|]. split; [vm_compute; reflexivity|].
+  split; [vm_compute; reflexivity|]. vm_compute. auto.
+Qed.
+
+(* K = 2: the notification of message 0 is done; the calls of messages 1 and 2 are both running;
+   nothing is held back *)
+Example only_calls_all_dispatched_nonvacuous :
+  reach ex_cfg2 (st_of ex_cfg2 tr_two_calls) /\ crash (st_of ex_cfg2 tr_two_calls) = None /\
+  quiescent (st_of ex_cfg2 tr_two_calls) = true /\ running (st_of ex_cfg2 tr_two_calls) = true /\
+  map (fun t => (t_unit t, is_note t, t_st t)) (tasks (st_of ex_cfg2 tr_two_calls)) =
+    [(0, true, TDone None); (1, false, TRunning); (2, false, TRunning)] /\
+  (forall j n, nth_error (tasks (st_of ex_cfg2 tr_two_calls)) j = Some n -> runnable n = true -> is_note n = true ->
+     released (st_of ex_cfg2 tr_two_calls) (t_unit n) = true -> exists b, t_st n = TDone b) /\
+  inq (st_of ex_cfg2 tr_two_calls) = [] /\ dp (st_of ex_cfg2 tr_two_calls) = DWaitWork.
+Proof.
+  split; [reach_ex|]. split; [vm_compute; reflexivity|]. split; [vm_compute; reflexivity|].
+  split; [vm_compute; reflexivity|]. split; [vm_compute; reflexivity|]. split; [|vm_compute; auto].
+  intros j n E _ Nn _.
+  assert (T : exists t0 t1 t2, tasks (st_of ex_cfg2 tr_two_calls) = [t0; t1; t2] /\
+                t_st t0 = TDone None /\ is_note t1 = false /\ is_note t2 = false).
+  { eexists _, _, _. split; [vm_compute; reflexivity|]. vm_compute. auto. }
+  destruct T as (t0 & t1 & t2 & T & S0 & N1 & N2). rewrite T in E. clear T.
+  destruct j as [|[|[|j]]]; cbn [nth_error] in E.
+  - injection E as <-. exists None. exact S0.
+  - injection E as <-. rewrite N1 in Nn. discriminate.
+  - injection E as <-. rewrite N2 in Nn. discriminate.
+  - destruct j; discriminate.
+Qed.
